@@ -78,3 +78,17 @@ package xrespondent
 //@ func (*socket).OpenContext
 //@   modifies none
 //@   ensures isnil(result0) && result1 == protocol.ErrProtoOp
+// ---- generated deadline contracts (tools/gen_deadline_contracts.py) ----
+//@ func (*socket).SendMsg
+//@   before select#1 assert s.bestEffort ==> tq == closedQ
+//@   before select#1 assert !s.bestEffort && s.sendExpire > 0 ==> timer_d(tq) == s.sendExpire
+//@   before select#1 assert !s.bestEffort && s.sendExpire <= 0 ==> tq == nilQ
+//@   ensures sel("select#1") == 2 && !s.bestEffort ==> result == protocol.ErrSendTimeout
+//@   ensures sel("select#1") == 2 && s.bestEffort ==> isnil(result)
+//@
+//@ func (*socket).RecvMsg
+//@   before select#1 assert at("call:Unlock#1", s.recvExpire) > 0 ==> timer_d(timeQ) == at("call:Unlock#1", s.recvExpire)
+//@   before select#1 assert at("call:Unlock#1", s.recvExpire) <= 0 ==> timeQ == nilQ
+//@   ensures sel("select#1") == 1 ==> result0 == nil && result1 == protocol.ErrRecvTimeout
+//@
+// ---- end generated deadline contracts ----
